@@ -45,20 +45,35 @@ def segment_ideal_endpoints(ctx, n):
         ctx.ensure('ideal_endpoints_distinct', sum(c * c for c in cr), '>', 0)
 
 
+def _lam(ctx, name):
+    l = ctx.real(name, lambda r: r.choice([-1, 1]) * r.uniform(0.3, 3))
+    ctx.assume(l * l, '>', 0)
+    return l
+
+
+def _segment(ctx, k, l, hom):
+    """hom: arbitrary homogeneous representatives a(1,k), b(1,l) (what an isometry with a translation part, hyperboloid
+    coordinates or eigenvector routines produce); otherwise the Klein-coordinate constructor"""
+    if hom:
+        b = _lam(ctx, 'b')        # only the ratio of the two scales matters to the code (it is homogeneous of degree 0 in a common factor)
+        return h.Segment(h.Point(spec.k2proj(k)), h.Point(b * spec.k2proj(l)))
+    return h.Segment(h.Point(np.array(k, copy=True), model="klein"), h.Point(np.array(l, copy=True), model="klein"))
+
+
 def _cross(a, b):
     return [a[i] * b[j] - a[j] * b[i] for i in range(len(a)) for j in range(i + 1, len(a))]
 
 
-@rcontract(P, "segment_circle_poincare", instances=[dict(n=2)], thorough=[dict(n=3)], timeout=150.0, max_paths=40,
+@rcontract(P, "segment_circle_poincare", instances=[dict(n=2, hom=False), dict(n=2, hom=True)], thorough=[dict(n=3, hom=False), dict(n=3, hom=True)], timeout=150.0, max_paths=40,
            functions=[H + "Subspace.sphere_parameters", H + "Subspace.ideal_basis_coords", H + "kleinian_to_poincare", U + "sphere_inversion",
                       H + "Segment._compute_aux_data", H + "PointPair.endpoint_coords"])
-def segment_circle_poincare(ctx, n):
+def segment_circle_poincare(ctx, n, hom):
     """Poincare model: the reported sphere meets the unit sphere at right angles (|c|^2 = 1 + r^2) and passes through
     both ideal endpoints and both endpoints.  Precondition: the geodesic does not pass through the origin."""
     k, l = two_points(ctx, n)
     cr = _cross(k, l)
     ctx.assume(sum(c * c for c in cr), '>', 0)
-    S = h.Segment(h.Point(np.array(k, copy=True), model="klein"), h.Point(np.array(l, copy=True), model="klein"))
+    S = _segment(ctx, k, l, hom)
     c, r = S.sphere_parameters(model=h.Model.POINCARE)
     ctx.ensure_eq('orthogonal_to_boundary', spec.nsq(c), 1 + r * r, tol=1e-6)
     ctx.ensure('radius_positive', r, '>', 0)
@@ -70,16 +85,16 @@ def segment_circle_poincare(ctx, n):
         ctx.ensure_eq(f'ideal{i}_on_boundary', spec.nsq(ideal[i]), 1, tol=1e-5)
 
 
-@rcontract(P, "segment_circle_halfspace", instances=[dict(n=2)], thorough=[dict(n=3)], timeout=150.0, max_paths=40,
+@rcontract(P, "segment_circle_halfspace", instances=[dict(n=2, hom=False), dict(n=2, hom=True)], thorough=[dict(n=3, hom=False), dict(n=3, hom=True)], timeout=150.0, max_paths=40,
            functions=[H + "Subspace.sphere_parameters", H + "poincare_to_halfspace", H + "Point.halfspace_coords"])
-def segment_circle_halfspace(ctx, n):
+def segment_circle_halfspace(ctx, n, hom):
     """half-space model: centre on the boundary (height 0), sphere through the endpoints and the ideal endpoints.
     Precondition: no ideal endpoint is the half-space point at infinity (the Klein line misses e_0)."""
     k, l = two_points(ctx, n)
     e0 = np.zeros(n); e0[0] = 1
     cr = _cross(k - e0, l - e0)
     ctx.assume(sum(c * c for c in cr), '>', 0)
-    S = h.Segment(h.Point(np.array(k, copy=True), model="klein"), h.Point(np.array(l, copy=True), model="klein"))
+    S = _segment(ctx, k, l, hom)
     c, r = S.sphere_parameters(model=h.Model.HALFSPACE)
     ctx.ensure_eq('centre_on_boundary', c[-1] / (1 + spec.nsq(c) + r * r), 0, tol=1e-6)   # float64: normalised by the chart's amplification
     ends = S.endpoint_coords("halfspace")
@@ -130,7 +145,8 @@ def geodesic_subspace_sphere(ctx, n):
     a, b = _ideal(ctx, 'u', n), _ideal(ctx, 'w', n)
     cr = _cross(a[1:], b[1:])
     ctx.assume(sum(c * c for c in cr), '>', 0)           # not a diameter
-    G = h.Geodesic(h.IdealPoint(np.array(a, copy=True)), h.IdealPoint(np.array(b, copy=True)))
+    sa, sb = _lam(ctx, 'sa'), _lam(ctx, 'sb')         # arbitrary lightlike representatives of the two ideal points
+    G = h.Geodesic(h.IdealPoint(sa * a), h.IdealPoint(sb * b))
     c, r = G.sphere_parameters(model=h.Model.POINCARE)
     ctx.ensure_eq('orthogonal_to_boundary', spec.nsq(c), 1 + r * r, tol=1e-6)
     for i, x in enumerate((a, b)):
@@ -157,6 +173,9 @@ def sampling(tier, rng, rep):
         if t % 7 == 0:
             k = k / np.linalg.norm(k) if np.linalg.norm(k) > 0 else np.array([1.0, 0.0])     # ideal endpoint
         S = h.Segment(h.Point(k.copy(), model="klein"), h.Point(l.copy(), model="klein"))
+        if t % 2:       # arbitrary homogeneous representatives of the same two points
+            fa, fb = (rng.choice([-1, 1]) * 10 ** rng.uniform(-1, 1) for _ in range(2))
+            S = h.Segment(h.Point(fa * spec.k2proj(k)), h.Point(fb * spec.k2proj(l)))
         for model in ("poincare", "halfspace"):
             for degrees in (True, False):
                 inp = {"k": k.tolist(), "l": l.tolist(), "model": model, "degrees": degrees}
@@ -192,7 +211,7 @@ def sampling(tier, rng, rep):
                             rep.fail("arc_inside_model", f"sample {q} below the boundary", inp); return
                         if dAB is not None and dAB > 1e-6 and min(q @ q if model == "poincare" else 1, 1) < 1 - 1e-9:
                             Q = h.Point(q.copy(), model=model)
-                            if abs(A.distance(Q) + Q.distance(B) - dAB) > 1e-5 * (1 + dAB):
+                            if not (abs(A.distance(Q) + Q.distance(B) - dAB) <= 1e-5 * (1 + dAB)):
                                 rep.fail("arc_points_on_segment", f"sample at s={s} not between the endpoints", inp); return
                     return (tr[1] < tr[0])
                 res = rep.attempt("circle_parameters_run", inp, body)
@@ -204,15 +223,16 @@ def _subspace_check(rng, rep, N, kmin, kmax):
         n = int(rng.integers(max(3, kmin), 5))
         kdim = int(rng.integers(kmin, min(kmax, n) + 1))
         ideal = rng.normal(size=(kdim, n)); ideal /= np.linalg.norm(ideal, axis=-1, keepdims=True)
-        Sub = h.Subspace(h.IdealPoint(np.concatenate([np.ones((kdim, 1)), ideal], axis=1)))
-        inp = {"n": n, "ideal_points": ideal.tolist()}
+        scale = 10 ** rng.uniform(-1, 1, size=(kdim, 1)) * rng.choice([-1, 1], size=(kdim, 1)) if t % 2 else np.ones((kdim, 1))
+        Sub = h.Subspace(h.IdealPoint(scale * np.concatenate([np.ones((kdim, 1)), ideal], axis=1)))
+        inp = {"n": n, "ideal_points": ideal.tolist(), "representative_scales": scale.ravel().tolist()}
 
         def sub():
             c, r = Sub.sphere_parameters(model=h.Model.POINCARE)
             d = np.linalg.norm(ideal - c, axis=-1)
-            if np.max(np.abs(d - r)) > 1e-6 * (1 + r):
+            if not np.all(np.abs(d - r) <= 1e-6 * (1 + r)):
                 rep.fail("subspace_sphere_contains_ideal_points", f"distances {d} radius {r}", inp)
-            if abs(c @ c - 1 - r * r) > 1e-6 * (1 + r * r):
+            if not (abs(c @ c - 1 - r * r) <= 1e-6 * (1 + r * r)):
                 rep.fail("subspace_sphere_orthogonal", f"|c|^2 = {c @ c}, 1 + r^2 = {1 + r * r}", inp)
         rep.attempt("subspace_sphere_runs", inp, sub)
         rep.case(key=(t, kdim), sample=inp if t == 0 else None)
@@ -255,7 +275,7 @@ def horospheres_all_dimensions(tier, rng, rep):
                 if np.max(np.abs(np.linalg.norm(ref - c, axis=-1) - r) / sc) > 1e-6:
                     rep.fail("horosphere_through_reference_point", f"|ref - c| = {np.linalg.norm(ref - c, axis=-1)}, r = {r}", inp); return
                 if model == "poincare":
-                    if np.max(np.abs(c - xi * (1 - np.asarray(r)[..., None]))) > 1e-6:
+                    if not np.all(np.abs(c - xi * (1 - np.asarray(r)[..., None])) <= 1e-6):
                         rep.fail("horosphere_tangent_at_centre", "centre not on the ray to the ideal centre at distance 1 - r", inp); return
                 else:
                     if np.max(np.abs(c[..., :-1] - ctr[..., :-1]) / sc[..., None] if np.ndim(sc) else np.abs(c[..., :-1] - ctr[..., :-1]) / sc) > 1e-6 or np.max(np.abs(c[..., -1] - r) / sc) > 1e-6:
